@@ -87,15 +87,37 @@ fn hex(b: &[u8]) -> String {
     b.iter().map(|x| format!("{x:02x}")).collect()
 }
 
-/// JUMP to (high << 32) + 8 where offset 8 is a JUMPDEST followed by an SSTORE to slot 7.
-/// The EVM rejects the jump for high != 0; executing the SSTORE means the target was truncated.
+/// JUMP to an arbitrary 256-bit target T (PUSH32 T JUMP) in a program that has a JUMPDEST followed by an SSTORE
+/// at offset (T mod 2^16) when that offset is small enough (>= 35, < 4096); otherwise at 40.  The EVM rejects the
+/// jump whenever T itself is not that offset; executing the SSTORE means the target was truncated.
 fn jump_target_bits(p: &str) -> String {
-    let high = (param(p, "high").unwrap_or(1) & 0xff) as u8;
-    let code = [0x64u8, high, 0, 0, 0, 8, 0x56, 0x00, 0x5b, 0x60, 1, 0x60, 7, 0x55, 0x00];
+    let mut t = [0u8; 32];
+    if let Some(h) = hex_param(p, "target_hex") {
+        for (i, b) in h.iter().rev().take(32).enumerate() {
+            t[31 - i] = *b;
+        }
+    } else {
+        let high = (param(p, "high").unwrap_or(1) & 0xff) as u8;
+        t[27] = high;
+        t[31] = 40;
+    }
+    let low = ((t[30] as usize) << 8) | t[31] as usize;
+    let dest = if (35..4096).contains(&low) { low } else { 40 };
+    let exact = t[..30].iter().all(|b| *b == 0) && low == dest;
+    let mut code = vec![0x7fu8];
+    code.extend_from_slice(&t);
+    code.push(0x56); // JUMP at 33
+    code.push(0x00); // STOP at 34
+    while code.len() < dest {
+        code.push(0x00);
+    }
+    code.push(0x5b); // JUMPDEST at dest
+    code.extend_from_slice(&[0x60, 1, 0x60, 7, 0x55, 0x00]);
     let (visits, ok, states) = run_vm(&code, true);
+    let sstore = dest + 5;
     format!(
-        "{{\"violates\": {}, \"sstore_visits\": {}, \"execute_ok\": {}, \"states\": {}, \"code\": \"{}\"}}",
-        high != 0 && visits[13] > 0, visits[13], ok, states, hex(&code)
+        "{{\"violates\": {}, \"sstore_visits\": {}, \"execute_ok\": {}, \"states\": {}, \"dest\": {}, \"target\": \"{}\"}}",
+        !exact && visits[sstore] > 0, visits[sstore], ok, states, dest, hex(&t)
     )
 }
 
@@ -125,19 +147,22 @@ fn permissive_bad_jump(p: &str) -> String {
 
 /// Disassemble the given bytes through the public API and compare the re-encoding.
 fn disassemble_roundtrip(p: &str) -> String {
-    let code = hex_param(p, "hex").unwrap_or_else(|| vec![0]);
+    let mut code = hex_param(p, "hex").unwrap_or_else(|| vec![0]);
+    if let Some(n) = param(p, "zeros") {
+        code = vec![0u8; n as usize];
+    }
     let r = InstructionStream::try_from(code.as_slice());
     match r {
         Ok(s) => {
             let back = s.as_bytecode();
             format!(
                 "{{\"violates\": {}, \"ok\": true, \"len\": {}, \"entries\": {}, \"code\": \"{}\"}}",
-                back != code || s.len() != code.len(), code.len(), s.len(), hex(&code)
+                back != code || s.len() != code.len(), code.len(), s.len(), hex(&code[..code.len().min(40)])
             )
         }
         Err(e) => format!(
             "{{\"violates\": {}, \"ok\": false, \"error\": \"{}\", \"code\": \"{}\"}}",
-            !code.is_empty(), format!("{e:?}").replace('"', "'"), hex(&code)
+            !code.is_empty(), format!("{e:?}").replace('"', "'"), hex(&code[..code.len().min(40)])
         ),
     }
 }
@@ -348,6 +373,118 @@ fn forest_step(p: &str) -> String {
         !bad.is_empty(), op, a, b, bad.join("; "), reps).replace("Some(", "S(")
 }
 
+fn run_vm_cfg(code: &[u8], config: Config) -> (bool, String, Vec<usize>) {
+    let stream = InstructionStream::try_from(code).expect("disassembles");
+    let mut vm = VM::new(stream, config, LazyWatchdog.in_rc()).expect("vm");
+    let r = vm.execute();
+    let mut visits = vec![0usize; code.len()];
+    for st in vm.stored_states() {
+        for ip in 0..code.len() as u32 {
+            let c = st.visited_instructions().visit_count(ip).unwrap_or(0);
+            visits[ip as usize] = visits[ip as usize].max(c);
+        }
+    }
+    match r {
+        Ok(()) => (true, String::new(), visits),
+        Err(e) => (false, format!("{e:?}").replace('"', "'").chars().take(200).collect(), visits),
+    }
+}
+
+/// A program that raises exactly one execution error of the named kind, run in strict and in permissive mode.
+fn error_kind(p: &str) -> String {
+    let kind = str_param(p, "kind").unwrap_or_default();
+    let via_jumpi = param(p, "jumpi").unwrap_or(0) == 1;
+    let mut gas_limit = None;
+    let code: Vec<u8> = match (kind.as_str(), via_jumpi) {
+        ("InvalidOffsetForJump", false) => vec![0x64, 1, 0, 0, 0, 0, 0x56],
+        ("InvalidOffsetForJump", true) => vec![0x60, 1, 0x64, 1, 0, 0, 0, 0, 0x57, 0x00],
+        ("InvalidJumpTarget", false) => vec![0x60, 0, 0x56],
+        ("InvalidJumpTarget", true) => vec![0x60, 1, 0x60, 0, 0x57, 0x00],
+        ("NonExistentJumpTarget", false) => vec![0x60, 0xff, 0x56],
+        ("NonExistentJumpTarget", true) => vec![0x60, 1, 0x60, 0xff, 0x57, 0x00],
+        ("NoConcreteJumpDestination", false) => vec![0x36, 0x56],
+        ("NoConcreteJumpDestination", true) => vec![0x60, 1, 0x36, 0x57, 0x00],
+        ("GasLimitExceeded", _) => {
+            gas_limit = Some(2usize);
+            vec![0x5b, 0x5b, 0x5b, 0x5b, 0x5b, 0x00]
+        }
+        // stack underflow
+        _ => vec![0x50, 0x00],
+    };
+    let mut out = Vec::new();
+    for permissive in [false, true] {
+        let mut config = Config::default();
+        config.permissive_errors = permissive;
+        if let Some(g) = gas_limit {
+            config.gas_limit = g;
+        }
+        let (ok, err, visits) = run_vm_cfg(&code, config);
+        out.push((ok, err, visits));
+    }
+    // did anything after the failing instruction run on that path?  (dead code behind a rejected JUMP)
+    let after_jump = if !via_jumpi && kind.contains("Jump") && code.len() < 16 { 0 } else { 0 };
+    let _ = after_jump;
+    format!(
+        "{{\"violates\": false, \"kind\": \"{}\", \"jumpi\": {}, \"strict_ok\": {}, \"permissive_ok\": {}, \"strict_error\": \"{}\", \"permissive_error\": \"{}\", \"code\": \"{}\"}}",
+        kind, via_jumpi, out[0].0, out[1].0, out[0].1, out[1].1, hex(&code)
+    )
+}
+
+/// Dead code behind a rejected unconditional JUMP: PUSH1 0xff JUMP JUMPDEST PUSH1 1 PUSH1 7 SSTORE STOP.
+fn rejected_jump_falls_through(p: &str) -> String {
+    let permissive = param(p, "permissive").unwrap_or(1) == 1;
+    let code = [0x60u8, 0xff, 0x56, 0x5b, 0x60, 1, 0x60, 7, 0x55, 0x00];
+    let mut config = Config::default();
+    config.permissive_errors = permissive;
+    let (ok, err, visits) = run_vm_cfg(&code, config);
+    format!("{{\"violates\": {}, \"after_jump_visits\": {}, \"execute_ok\": {}, \"error\": \"{}\", \"code\": \"{}\"}}",
+        visits[3] > 0 || visits[8] > 0, visits[3], ok, err, hex(&code))
+}
+
+/// VMThread::fork must carry the gas already consumed over to the new thread.
+fn fork_gas(_p: &str) -> String {
+    let code = [0x5bu8, 0x5b, 0x00];
+    let stream = InstructionStream::try_from(code.as_slice()).expect("disassembles");
+    let mut vm = VM::new(stream, Config::default(), LazyWatchdog.in_rc()).expect("vm");
+    let t = vm.current_thread_mut().expect("thread");
+    t.consume_gas(15);
+    let f = t.fork(1);
+    format!("{{\"violates\": {}, \"parent_gas\": {}, \"forked_gas\": {}}}", f.gas_usage() != t.gas_usage(), t.gas_usage(), f.gas_usage())
+}
+
+/// A loop closed by an unconditional JUMP: JUMPDEST PUSH1 0 JUMP.  No offset may be visited more than the limit.
+fn jump_loop_visits(p: &str) -> String {
+    let limit = param(p, "max_iterations").unwrap_or(3) as usize;
+    let code = [0x5bu8, 0x5b, 0x60, 0x00, 0x56, 0x00];
+    let mut config = Config::default();
+    config.maximum_iterations_per_opcode = limit;
+    config.gas_limit = 3000; // keeps a run-away loop finite
+    let (_, _, visits) = run_vm_cfg(&code, config);
+    let worst = visits.iter().copied().max().unwrap_or(0);
+    format!("{{\"violates\": {}, \"limit\": {}, \"worst\": {}, \"visits\": \"{:?}\", \"code\": \"{}\"}}", worst > limit, limit, worst, visits, hex(&code))
+}
+
+/// A PUSH cut short by the end of the code: every byte must behave as INVALID (no live instruction, no jump destination).
+fn truncated_push(p: &str) -> String {
+    use storage_layout_extractor::opcode::control::Invalid;
+    let code = hex_param(p, "hex").unwrap_or_else(|| vec![0x61, 0x5b]);
+    let r = InstructionStream::try_from(code.as_slice());
+    match r {
+        Ok(s) => {
+            let t = s.new_thread(0).expect("thread");
+            let mut live = Vec::new();
+            for i in 0..code.len() as u32 {
+                let op = t.instruction(i).expect("entry");
+                if op.as_ref().as_any().downcast_ref::<Invalid>().is_none() {
+                    live.push(format!("{}:{}", i, op.as_text_code()));
+                }
+            }
+            format!("{{\"violates\": {}, \"ok\": true, \"live_entries\": \"{}\", \"code\": \"{}\"}}", !live.is_empty() || s.len() != code.len(), live.join(","), hex(&code))
+        }
+        Err(e) => format!("{{\"violates\": true, \"ok\": false, \"error\": \"{}\", \"code\": \"{}\"}}", format!("{e:?}").replace('"', "'"), hex(&code)),
+    }
+}
+
 fn main() {
     let args: Vec<String> = std::env::args().collect();
     if args.len() < 3 {
@@ -361,6 +498,11 @@ fn main() {
         "fork_first_visit" => fork_first_visit(&p),
         "jump_target_bits" => jump_target_bits(&p),
         "halting_opcode" => halting_opcode(&p),
+        "truncated_push" => truncated_push(&p),
+        "error_kind" => error_kind(&p),
+        "rejected_jump_falls_through" => rejected_jump_falls_through(&p),
+        "fork_gas" => fork_gas(&p),
+        "jump_loop_visits" => jump_loop_visits(&p),
         "forest_step" => forest_step(&p),
         "analyze" => analyze(&p),
         "culled_size" => culled_size(&p),
